@@ -1520,6 +1520,11 @@ let attr_step e is_comp a attr = match attr with
   else step_plain e is_comp a name value
 | _ -> a
 
+(** val has_flag : coq_N -> coq_N -> bool **)
+
+let has_flag f b =
+  negb (N.eqb (N.coq_land f b) N0)
+
 (** val compute_flags : acc -> coq_N **)
 
 let compute_flags a =
@@ -1546,6 +1551,64 @@ type attrs_result = { r_attrs : node; r_flags : coq_N;
                       r_dyn : str list option; r_slots : node option;
                       r_dirs : directive list; r_st : st }
 
+(** val final_attrs_expr : env -> acc -> node * st **)
+
+let final_attrs_expr e a =
+  match a.a_margs with
+  | [] ->
+    (match a.a_props with
+     | [] -> (Null, a.a_st)
+     | n :: l ->
+       (match n with
+        | Spread e0 ->
+          (match l with
+           | [] -> (e0, a.a_st)
+           | n0 :: l0 -> ((flush_obj e ((Spread e0) :: (n0 :: l0))), a.a_st))
+        | x -> ((flush_obj e (x :: l)), a.a_st)))
+  | _ :: _ ->
+    let margs =
+      match a.a_props with
+      | [] -> a.a_margs
+      | n :: l -> app a.a_margs ((flush_obj e (n :: l)) :: [])
+    in
+    (match margs with
+     | [] ->
+       let (h, s) =
+         import_from_vue (String ((Ascii (true, false, true, true, false,
+           true, true, false)), (String ((Ascii (true, false, true, false,
+           false, true, true, false)), (String ((Ascii (false, true, false,
+           false, true, true, true, false)), (String ((Ascii (true, true,
+           true, false, false, true, true, false)), (String ((Ascii (true,
+           false, true, false, false, true, true, false)), (String ((Ascii
+           (false, false, false, false, true, false, true, false)), (String
+           ((Ascii (false, true, false, false, true, true, true, false)),
+           (String ((Ascii (true, true, true, true, false, true, true,
+           false)), (String ((Ascii (false, false, false, false, true, true,
+           true, false)), (String ((Ascii (true, true, false, false, true,
+           true, true, false)), EmptyString)))))))))))))))))))) a.a_st
+       in
+       ((mk_call h margs), s)
+     | e0 :: l ->
+       (match l with
+        | [] -> (e0, a.a_st)
+        | _ :: _ ->
+          let (h, s) =
+            import_from_vue (String ((Ascii (true, false, true, true, false,
+              true, true, false)), (String ((Ascii (true, false, true, false,
+              false, true, true, false)), (String ((Ascii (false, true,
+              false, false, true, true, true, false)), (String ((Ascii (true,
+              true, true, false, false, true, true, false)), (String ((Ascii
+              (true, false, true, false, false, true, true, false)), (String
+              ((Ascii (false, false, false, false, true, false, true,
+              false)), (String ((Ascii (false, true, false, false, true,
+              true, true, false)), (String ((Ascii (true, true, true, true,
+              false, true, true, false)), (String ((Ascii (false, false,
+              false, false, true, true, true, false)), (String ((Ascii (true,
+              true, false, false, true, true, true, false)),
+              EmptyString)))))))))))))))))))) a.a_st
+          in
+          ((mk_call h margs), s)))
+
 (** val transform_attrs : env -> node list -> bool -> st -> attrs_result **)
 
 let transform_attrs e attrs is_comp s =
@@ -1559,65 +1622,7 @@ let transform_attrs e attrs is_comp s =
         a_dyn = []; a_dirs = []; a_slots = None; a_ref = false; a_class =
         false; a_style = false; a_hyd = false; a_dynkeys = false; a_st = s }
     in
-    let (expr, s0) =
-      match a.a_margs with
-      | [] ->
-        (match a.a_props with
-         | [] -> (Null, a.a_st)
-         | n :: l ->
-           (match n with
-            | Spread e0 ->
-              (match l with
-               | [] -> (e0, a.a_st)
-               | n0 :: l0 ->
-                 ((flush_obj e ((Spread e0) :: (n0 :: l0))), a.a_st))
-            | x -> ((flush_obj e (x :: l)), a.a_st)))
-      | _ :: _ ->
-        let margs =
-          match a.a_props with
-          | [] -> a.a_margs
-          | n :: l -> app a.a_margs ((flush_obj e (n :: l)) :: [])
-        in
-        (match margs with
-         | [] ->
-           let (h, s0) =
-             import_from_vue (String ((Ascii (true, false, true, true, false,
-               true, true, false)), (String ((Ascii (true, false, true,
-               false, false, true, true, false)), (String ((Ascii (false,
-               true, false, false, true, true, true, false)), (String ((Ascii
-               (true, true, true, false, false, true, true, false)), (String
-               ((Ascii (true, false, true, false, false, true, true, false)),
-               (String ((Ascii (false, false, false, false, true, false,
-               true, false)), (String ((Ascii (false, true, false, false,
-               true, true, true, false)), (String ((Ascii (true, true, true,
-               true, false, true, true, false)), (String ((Ascii (false,
-               false, false, false, true, true, true, false)), (String
-               ((Ascii (true, true, false, false, true, true, true, false)),
-               EmptyString)))))))))))))))))))) a.a_st
-           in
-           ((mk_call h margs), s0)
-         | e0 :: l ->
-           (match l with
-            | [] -> (e0, a.a_st)
-            | _ :: _ ->
-              let (h, s0) =
-                import_from_vue (String ((Ascii (true, false, true, true,
-                  false, true, true, false)), (String ((Ascii (true, false,
-                  true, false, false, true, true, false)), (String ((Ascii
-                  (false, true, false, false, true, true, true, false)),
-                  (String ((Ascii (true, true, true, false, false, true,
-                  true, false)), (String ((Ascii (true, false, true, false,
-                  false, true, true, false)), (String ((Ascii (false, false,
-                  false, false, true, false, true, false)), (String ((Ascii
-                  (false, true, false, false, true, true, true, false)),
-                  (String ((Ascii (true, true, true, true, false, true, true,
-                  false)), (String ((Ascii (false, false, false, false, true,
-                  true, true, false)), (String ((Ascii (true, true, false,
-                  false, true, true, true, false)),
-                  EmptyString)))))))))))))))))))) a.a_st
-              in
-              ((mk_call h margs), s0)))
-    in
+    let (expr, s0) = final_attrs_expr e a in
     { r_attrs = expr; r_flags = (compute_flags a); r_dyn = (Some a.a_dyn);
     r_slots = a.a_slots; r_dirs = a.a_dirs; r_st = s0 }
 
